@@ -140,6 +140,17 @@ Proof.
 Qed.
 Print Assumptions send_receive_roundtrip.
 
+(* both halves together: whatever payloads are written back to back by _send, and however the
+   transport cuts the byte stream, the read loop yields exactly the serialised payloads, then EOF *)
+Theorem send_chunked_receive_roundtrip : forall (vs : list json) fuel cs,
+  (List.length vs < fuel)%nat ->
+  concat cs = concat (map send vs) ->
+  receive_all_chunks fuel cs = (map dumps vs, PEof).
+Proof.
+  intros vs fuel cs Hf E. rewrite receive_all_chunked, E, send_receive_roundtrip by exact Hf. reflexivity.
+Qed.
+Print Assumptions send_chunked_receive_roundtrip.
+
 (* non-vacuity / sanity: a Content-Type-first frame with a non-ASCII body followed by a
    Content-Length-only frame; and the escape of U+1F600 *)
 Example C16_nonvacuous :
